@@ -80,6 +80,10 @@ HARNESSES = [
         ("k_capi_mz_inflate", ["C17", "C06"], ["mz_inflate", "mz_inflateInit2", "mz_inflateEnd", "mz_inflate_oxide", "mz_inflate_init2_oxide", "StreamOxide::try_new", "StreamOxide::into_mz_stream", "MZFlush::new", "as_c_return_code"]),
         ("k_capi_custom_allocators_rejected", ["C17"], ["StreamOxide::try_new"]),
       )],
+    H("k_apply_match_small_buffer", "K-applymatch", ["C03", "C05", "C07", "C08"], fns=["apply_match", "transfer"], cost=70, timeout=2400, tier="thorough",
+      strength="B(buffer <= 16 bytes; complete in contents, positions, distance, length, flat/ring mode)"),
+    H("k_apply_match_tiny_buffer", "K-applymatch", ["C03", "C05", "C07", "C08"], fns=["apply_match", "transfer"], cost=70, timeout=900,
+      strength="B(buffer <= 8 bytes; complete in contents, positions, distance, length, flat/ring mode)"),
     # ---- K-inflate (streaming wrapper against the M-decompress contract model) ----
     H("k_inflate_protocol", "K-inflate", ["C04", "C05", "C06", "C07", "C09", "C13"], fns=["inflate", "inflate_loop", "push_dict_out", "InflateState::new"],
       cost=60, strength="B(in<=3,out<=3 bytes => loop<=8 iterations, unwinding assertion on; complete in wrapper state, flags, flush, engine results)",
